@@ -28,6 +28,7 @@ func main() {
 		os.Exit(2)
 	}
 	c := mc.New(prop, tier)
+	c.StartStallWatchdog()
 	f(c)
 	os.Exit(c.Finish())
 }
